@@ -6,6 +6,9 @@ HERE = os.path.dirname(os.path.dirname(os.path.abspath(__file__)))
 
 # id -> (technique, level text, level note, design ref)
 CLAIMED = {
+ "C16": ("relational bounds proof of the body size, slice-identity and phi/def-use rules for the carry-over, single-writer/who-calls ownership, entry-block typestate for the closed check, value-origin (freshness) analysis over go/ssa",
+         "Decides: body = sndBuf[:wrSz] with wrSz <= 65536 proved; carry-over is exactly sndBuf[wrSz:] and is prepended next time, queued writes are appended in arrival order; one session id; RoundTrip only in roundTrip, called synchronously from the single worker; Read and Write test the close signal first and fail when closed; responses and enqueued writes are private allocations; the worker leaves its loop on close. Stream integrity under all timings is a scheduling property and is not decided.",
+         "go/types+go/ssa faithful; io.ReadAll allocates; contract table", "DESIGN.md section 4, C16"),
  "C11": ("lock-region analysis (single Lock + deferred Unlock dominating every guarded access, helper closure), dominance (compaction before lookup), control-equivalent pairing of map/list mutations with closed-world enumeration, closed guard sets for eviction over go/ssa",
          "Decides the structural necessary conditions only: one critical section around lookup+insert, all accesses to map/list under the mutex, compaction with the caller's time before the lookup, map/list mutated only in matching same-block pairs on the same entry, CSPRNG key with a single writer, eviction only when full (re-tested per entry, capacity 102400), TTL disabled or age >= ttl, reset on negative age. Behaviour over histories and linearizability are not decided.",
          "go/types+go/ssa faithful; sync.Mutex/container/list behave as documented", "DESIGN.md section 4, C11"),
